@@ -74,3 +74,20 @@ From JT Require Import gen.Brackets.
 Theorem C16_leaf_position_is_bracketed_in_the_source : treepath_protected = true.
 Proof. reflexivity. Qed.
 Print Assumptions C16_leaf_position_is_bracketed_in_the_source.
+
+(* the leaf loop of _MetaPyTree._check (set_treepath_memo(i, structure) / leaf check / clear_treepath_memo(), inside
+   try ... finally: clear_treepath_memo()), AS REGENERATED FROM THE SOURCE on every run (gen/StorageSrc.v, interpreted by
+   model/SL.v): for every list of leaves and every starting state it computes the model's leaf_loop followed by
+   `with_path .. None`, given only that the leaf check outside the fragment simulates the model's leaf check *)
+From JT Require Import model.SL gen.StorageSrc proofs.SLFacts proofs.SLWalkFacts.
+Theorem C16_leaf_loop_as_in_source_is_the_models_loop : forall ext ischeck leafof,
+  (forall v s, wf_cells s ->
+     let '(r, s') := ext "is_check_leaftype" [v] s in
+     let '(vd, p') := ischeck (leafof v) (abs_store s) in
+     r = res_of vd /\ abs_store s' = p' /\ wf_cells s') ->
+  forall sv structure lvs s, struct_rel sv structure -> wf_cells s ->
+  exists r s', run_ext ext walk_src "leaf_loop" [sv; SVList lvs] s = Some (r, s') /\
+    let '(vd, p') := leaf_loop ischeck structure (map leafof lvs) 0 (abs_store s) in
+    r = res_of vd /\ abs_store s' = with_path p' None /\ wf_cells s'.
+Proof. exact leaf_loop_as_in_source. Qed.
+Print Assumptions C16_leaf_loop_as_in_source_is_the_models_loop.
